@@ -4,10 +4,16 @@
    ([wfb], [races] of Model/Lockset.v) and the verdict per location is compared.
    case inputs  = ((sacq nT nL smr|smw) | (srel nT nL smr|smw) |
                    (sacc nT nX srd|swr strue|sfalse) | (spub nT nX) ...)
-   observations = (strue|sfalse (nX ...))   well-formed?, locations with a reported race (sorted) *)
+   observations = (strue|sfalse (nX ...))   well-formed?, locations with a reported race (sorted)
+
+   Second case shape (results handed to the user, Model/Handed.v): the harness builds the
+   hand-over execution from (source kind, continuation) with its own code and runs it the same
+   way; the model builds [handover src sched] and gives its verdict:
+   case inputs  = (shandover scopy|salias ((sread nU) | srecycle ...))
+   observations = as above (location 0 = the pooled object, 1 = the call's own copy) *)
 From Coq Require Import Strings.String Strings.Byte.
 From Coq Require Import List Arith NArith Bool Lia.
-From Verif Require Import Base.Bytes Base.Val Model.Lockset.
+From Verif Require Import Base.Bytes Base.Val Model.Lockset Model.Handed.
 Import ListNotations.
 
 Definition mode_of_val (v : val) : option mode :=
@@ -57,13 +63,43 @@ Definition racy_locations (tr : list event) : list nat :=
   fold_left (fun acc p => match loc_at tr (fst p) with Some x => insert_nat x acc | None => acc end)
             (races tr) [].
 
+Definition verdict (tr : list event) : val :=
+  VL [vbool (wfb tr); VL (map (fun x => VN (N.of_nat x)) (racy_locations tr))].
+
+Definition src_of_val (v : val) : option src :=
+  if sym_eqb v "copy" then Some SrcCopy else if sym_eqb v "alias" then Some SrcAlias else None.
+
+Definition later_of_val (v : val) : option later :=
+  match v with
+  | VL [op; VN u] => if sym_eqb op "read" then Some (URead (N.to_nat u)) else None
+  | _ => if sym_eqb v "recycle" then Some Recycle else None
+  end.
+
+Fixpoint laters_of (l : list val) : option (list later) :=
+  match l with
+  | [] => Some []
+  | v :: r => match later_of_val v, laters_of r with
+              | Some e, Some es => Some (e :: es)
+              | _, _ => None
+              end
+  end.
+
+Definition run_trace (evs : list val) : option val :=
+  match events_of evs with
+  | Some tr => Some (verdict tr)
+  | None => None
+  end.
+
 Definition run (inp : val) : option val :=
   match inp with
-  | VL evs =>
-      match events_of evs with
-      | Some tr => Some (VL [vbool (wfb tr); VL (map (fun x => VN (N.of_nat x)) (racy_locations tr))])
-      | None => None
-      end
+  | VL [tag; s; VL sched] =>
+      if sym_eqb tag "handover" then
+        match src_of_val s, laters_of sched with
+        | Some sr, Some ls => Some (verdict (handover sr ls))
+        | _, _ => None
+        end
+      else run_trace [tag; s; VL sched]
+  | VL evs => run_trace evs
   | _ => None
   end.
 
